@@ -804,6 +804,13 @@ impl TransactionBuilder {
             ));
         }
 
+        let value_size = collateral_return.amount.to_bytes().len();
+        if value_size > self.config.max_value_size as usize {
+            return Err(JsError::from_str(&format!(
+                "Maximum value size of {} exceeded. Found: {}",
+                self.config.max_value_size, value_size
+            )));
+        }
         let min_ada = min_ada_for_output(&collateral_return, &self.config.utxo_cost())?;
         if min_ada > collateral_return.amount.coin {
             return Err(JsError::from_str(&format!(
@@ -852,6 +859,13 @@ impl TransactionBuilder {
         let col_return: Value = col_input_value.checked_sub(&Value::new(&total_collateral))?;
         if col_return.multiasset.is_some() || col_return.coin > BigNum::zero() {
             let return_output = TransactionOutput::new(return_address, &col_return);
+            let value_size = return_output.amount.to_bytes().len();
+            if value_size > self.config.max_value_size as usize {
+                return Err(JsError::from_str(&format!(
+                    "Maximum value size of {} exceeded. Found: {}",
+                    self.config.max_value_size, value_size
+                )));
+            }
             let min_ada = min_ada_for_output(&return_output, &self.config.utxo_cost())?;
             if min_ada > col_return.coin {
                 return Err(JsError::from_str(&format!(
